@@ -10,6 +10,8 @@ src=/tmp/mut-out/$id
 dst=/verif/seeded/$id
 wt=/tmp/confirm-$id
 export GOFLAGS=-mod=mod GOPROXY=off
+# C14 demonstrations are data races: they only fail under the race detector
+race=""; case "$id" in C14-*) race="-race";; esac
 mkdir -p "$dst"
 log=$dst/confirm.log
 : > "$log"
@@ -28,10 +30,10 @@ if [ $res_build = ok ]; then
   if flock /tmp/kcp-suite.lock go test -vet=off -count=1 -timeout 25m ./... >>"$log" 2>&1; then res_suite=pass; else res_suite=FAIL; fi
   for f in $demos; do cp "$src/$f" .; done
   echo "--- demo with change" >> "$log"
-  if go test -vet=off -count=1 -timeout 10m -run "^($runs)\$" . >>"$log" 2>&1; then res_demo_with=pass; else res_demo_with=fail; fi
+  if go test $race -vet=off -count=1 -timeout 10m -run "^($runs)\$" . >>"$log" 2>&1; then res_demo_with=pass; else res_demo_with=fail; fi
   git checkout -q -- . 
   echo "--- demo without change" >> "$log"
-  if go test -vet=off -count=1 -timeout 10m -run "^($runs)\$" . >>"$log" 2>&1; then res_demo_without=pass; else res_demo_without=fail; fi
+  if go test $race -vet=off -count=1 -timeout 10m -run "^($runs)\$" . >>"$log" 2>&1; then res_demo_without=pass; else res_demo_without=fail; fi
 fi
 cp "$src/patch.diff" "$dst/"; for f in $demos; do cp "$src/$f" "$dst/"; done
 python3 - "$id" "$src" "$dst" "$res_apply" "$res_build" "$res_demo_with" "$res_demo_without" "$res_suite" <<'PY'
